@@ -19,9 +19,9 @@ pass 2, per rejected variant: probe programs (call every pre-existing function, 
     loops over them) run in the disturbed context and in an undisturbed twin (a second context built the same
     way; for the interactive path the clone taken before the rejected statement): results, output, dumps equal.
 
-Known findings (region decided by the driver from the event sequence / the context):
-    C11.complete_redefinition_survives_reject, C11.failed_redefinition_not_rolled_back,
-    C11.null_tuple_symbol_restored_opaque.
+Known finding (region decided by the driver from the event sequence): C11.complete_redefinition_survives_reject.
+Repaired in /repo and now required to hold: a failed redefinition is rolled back wherever its entry is (3e9e0ba), a
+variable holding a null tuple keeps its type (353443e).
 """
 import os
 import re
@@ -31,8 +31,8 @@ from ..core import Check, log
 from ..run import hx
 
 KF_COMPLETE = "C11.complete_redefinition_survives_reject"
-KF_ROLLBACK = "C11.failed_redefinition_not_rolled_back"
-KF_OPAQUE = "C11.null_tuple_symbol_restored_opaque"
+# repaired in /repo (3e9e0ba, 353443e): C11.failed_redefinition_not_rolled_back, C11.null_tuple_symbol_restored_opaque —
+# their witnesses stay in witness_variants() and must now satisfy the Spec
 
 DEFAULT_FINDINGS = [
     {"property": "C11", "id": KF_COMPLETE, "status": "known",
@@ -43,22 +43,6 @@ DEFAULT_FINDINGS = [
      "what": "a COMPLETE redefinition of an existing function earlier in a rejected text stays installed: createOrReplace "
              "swaps the new functor into the table at parse time and nothing undoes it when a later statement of the same "
              "text fails (rollback only covers the declaration being parsed)"},
-    {"property": "C11", "id": KF_ROLLBACK, "status": "known",
-     "site": "blocc/functor_manager.cpp:FunctorManager::rollback",
-     "witness": "function f(x) return integer is begin return 1; end; function g(x) return integer is begin return 2; end;   "
-                "then the rejected text   function f(x) return integer is begin return 10 end;   then   print f(0);  -> null dereference",
-     "expected": "f keeps its definition and is callable", "observed": "f is left with a body-less functor; calling it crashes",
-     "what": "a FAILED redefinition of a function that is not the last entry of the function table is not rolled back: "
-             "rollback() only looks at _declarations.back(); the entry keeps the new functor without body and a call "
-             "dereferences the null body (also when the same text declared a new function before)"},
-    {"property": "C11", "id": KF_OPAQUE, "status": "known",
-     "site": "blocc/context.cpp:Context::parsingEnd, Context::storeVariable",
-     "witness": "raise oops; u = tup(1,\"x\");   then   v = 1; v = u;   then the rejected text   v = 2; z = ;   "
-                "changes the symbol type of v from tuple#27364 to the opaque tuple#0",
-     "expected": "v keeps its type", "observed": "the type of v becomes the opaque tuple",
-     "what": "a variable that holds a null tuple of a known structure (symbol typed by storeVariable from the value: minor "
-             "set, no decl) and is upgraded by a rejected text is restored by parsingEnd from its (empty) decl: its type "
-             "becomes the opaque tuple (minor 0)"},
 ]
 
 # ---------------------------------------------------------------------------------------------- contexts
@@ -546,10 +530,6 @@ class C11(Check):
             kfs = [k for k in (kf or "-").split(",") if k and k != "-"]
             if raw is None or raw.startswith("crash ") or raw.endswith("diverges") or "foreign-exception" in raw or "uncaught-" in raw:
                 cls = raw.split(" ", 1)[1] if raw and raw.startswith("crash ") else ""
-                if KF_ROLLBACK in kfs and cls in ("ubsan:null", "segv"):
-                    # calling the body-less function
-                    self.known(KF_ROLLBACK, v, p + "/probe", raw)
-                    continue
                 if KF_COMPLETE in kfs and (cls.startswith("asan:") or cls in ("segv", "ubsan:null", "ubsan:bounds")):
                     # the surviving redefinition runs in a call context cached for the OLD definition (clearCache only
                     # happens when the FUNCTION statement is executed): its locals lie outside the cached storage pool
@@ -590,7 +570,8 @@ class C11(Check):
 
     # ------------------------------------------------------------------------------------------ fixed witnesses
     def witness_variants(self):
-        """the recorded witnesses of the three findings (and their neighbours where the property holds)"""
+        """the recorded witness of the finding, the witnesses of the two repaired defects (which must now satisfy the Spec)
+        and their neighbours"""
         ws = []
         ws.append(Variant("W.complete", "B", "w", "witness", 0, "function fa ( x ) return integer is begin return 10 ; end ; z = ;".split()))
         ws.append(Variant("W.notlast", "B", "w", "witness", 0, "function fa ( x ) return integer is begin return 10 end ;".split()))
